@@ -284,10 +284,63 @@ def rule_cl_exit(cx, rep, port='py'):
     d = [n for n in walk_no_nested(ei) if isinstance(n, ast.Dict)]
     got = {k.value: v.value for k, v in zip(d[0].keys, d[0].values)} if d else {}
     want = {'RbqlRuntimeError': 'query execution', 'RbqlParsingError': 'query parsing', 'RbqlIOHandlingError': 'IO handling'}
-    rep.decide(got == want, 'error type map', d[0] if d else ei, 'runtime -> query execution, parsing -> query parsing, IO -> IO handling', 'error class -> type map is {}'.format(got))
+    # evaluated on abstract exceptions of the three library classes, of another class and of SyntaxError
+    from .. import absexec as AX_
+    classes_ = {'RbqlRuntimeError': 'query execution', 'RbqlParsingError': 'query parsing', 'RbqlIOHandlingError': 'IO handling', 'ValueError': 'unexpected', 'SyntaxError': 'syntax error'}
+    got_m, gave_up_ = {}, None
+    for cname_ in classes_:
+        exc = AX_.Abs('ExcObj', cls=cname_)
+
+        def on_call_(ex, node, fname, recv, args, exc=exc, cname_=cname_):
+            if fname == 'isinstance' and len(args) == 2 and args[0] is exc:
+                cl_ = args[1] if isinstance(args[1], (list, tuple)) and not (len(args[1]) == 2 and args[1][0] in ('global', 'builtin', 'class')) else [args[1]]
+                names_ = [(c_[1].split('.')[-1] if isinstance(c_, tuple) and len(c_) == 2 else None) for c_ in cl_]
+                if None in names_:
+                    raise Undecided('isinstance against {!r}'.format(args[1]), node)
+                return cname_ in names_ or ('Exception' in names_) or ('BaseException' in names_)
+            if fname == 'str' and len(args) == 1 and args[0] is exc:
+                return 'the message'
+            if fname == 'sys.exc_info':
+                return (('class', cname_), exc, None)
+            if fname.endswith('format_exception_only'):
+                return ['  File "<string>", line 1\n', '    select a1 having x\n', 'SyntaxError: invalid syntax\n']
+            return AX_.NOT_HANDLED
+
+        def on_attr_(ex, node, obj, attr, cname_=cname_):
+            if isinstance(obj, tuple) and len(obj) == 2 and obj[0] == 'class' and attr == '__name__':
+                return obj[1]
+            return AX_.NOT_HANDLED
+
+        def on_name_(ex, node, name):
+            if name in ('SyntaxError', 'Exception', 'BaseException', 'ValueError'):
+                return ('global', name)
+            return AX_.NOT_HANDLED
+        try:
+            runs_, cut_ = AX_.Explorer(p, 'rbql_engine', on_call=on_call_, on_attr=on_attr_, on_name=on_name_, max_choices=1).explore(ei, [exc])
+            v_ = runs_[0].outcome[1] if (not cut_ and len(runs_) == 1 and runs_[0].outcome[0] == 'return') else None
+            if not (isinstance(v_, (tuple, list)) and len(v_) == 2 and isinstance(v_[0], str)):
+                raise Undecided('no (type, message) pair for {}'.format(cname_), ei)
+            got_m[cname_] = v_[0]
+        except (Undecided, KeyError, IndexError, TypeError, AttributeError, ValueError) as e_:
+            gave_up_ = (cname_, str(e_))
+            if cname_ != 'SyntaxError':
+                break
+    lib_ = {k_: v_ for k_, v_ in classes_.items() if k_.startswith('Rbql')}
+    if all(k_ in got_m for k_ in lib_):
+        wrong_ = {k_: got_m[k_] for k_ in lib_ if got_m[k_] != lib_[k_]}
+        rep.decide(not wrong_, 'error type map', ei, 'runtime -> query execution, parsing -> query parsing, IO -> IO handling (exception_to_error_info evaluated on abstract exceptions)', 'error class -> type map gives {}'.format(wrong_))
+    elif got == want:
+        rep.holds('error type map', d[0], 'runtime -> query execution, parsing -> query parsing, IO -> IO handling')
+    else:
+        rep.undecided('error type map', ei, 'exception_to_error_info is outside the abstract interpreter ({}) and its class table is not the known literal'.format(gave_up_))
     t = node_text(ei, 6000)
     oks = "return ('syntax error', error_msg)" in t and "error_type = 'unexpected'" in t
-    rep.decide(oks, 'other errors', ei, 'SyntaxError -> syntax error; anything else -> unexpected', 'syntax/unexpected classification changed')
+    if 'ValueError' in got_m and 'SyntaxError' in got_m:
+        rep.decide(got_m['ValueError'] == 'unexpected' and got_m['SyntaxError'] == 'syntax error', 'other errors', ei, 'SyntaxError -> syntax error; anything else -> unexpected (evaluated)', 'a SyntaxError is classified as {!r} and another exception as {!r}'.format(got_m['SyntaxError'], got_m['ValueError']))
+    elif oks:
+        rep.holds('other errors', ei, 'SyntaxError -> syntax error; anything else -> unexpected')
+    else:
+        rep.undecided('other errors', ei, 'how SyntaxError and unknown exception classes are classified was not recognised ({})'.format(gave_up_))
     # out-format table
     f = p.func('rbql_csv', 'interpret_named_csv_format')
     want_fmt = {'monocolumn': ('', 'monocolumn'), 'csv': (',', 'quoted'), 'tsv': ('\t', 'simple')}
@@ -379,9 +432,29 @@ def rule_cl_exit(cx, rep, port='py'):
     else:
         rep.decide(oko, 'out-format input', r, '--out-format input reuses the input dialect; a named format gives its own', '--out-format input no longer reuses the input delimiter and policy (or a named format does not give its dialect)')
     gd = p.func('rbql_main', 'get_default_policy')
-    t = node_text(gd, 1000).replace(' ', '')
-    okg = "ifdelimin[';',',']:return'quoted'" in t and "elifdelim=='':return'whitespace'" in t.replace("' '", "''") and "else:return'simple'" in t
-    rep.decide(okg, 'default policy', gd, '; , -> quoted, space -> whitespace, else simple', 'default policy table changed')
+    # evaluated on the delimiters that matter and on representatives of "anything else"
+    from .. import absexec as AX
+    table, gave_up = {}, None
+    for d_ in (';', ',', ' ', '\t', '|', ';;', ', ', '  ', ''):
+        try:
+            runs, cut = AX.Explorer(p, 'rbql_main', max_choices=1).explore(gd, [d_])
+            if cut or len(runs) != 1 or runs[0].outcome[0] != 'return' or not isinstance(runs[0].outcome[1], str):
+                raise Undecided('no single string result for {!r}'.format(d_), gd)
+            table[d_] = runs[0].outcome[1]
+        except (Undecided, KeyError, IndexError, TypeError, AttributeError) as e_:
+            gave_up = str(e_)
+            break
+    if gave_up is None:
+        want_ = {';': 'quoted', ',': 'quoted', ' ': 'whitespace'}
+        wrong_ = {d_: v_ for d_, v_ in table.items() if v_ != want_.get(d_, 'simple')}
+        rep.decide(not wrong_, 'default policy', gd, '; , -> quoted, space -> whitespace, else simple (evaluated on 9 delimiters)', 'without --policy the delimiter(s) {} get the policy {} (must be: `;` and `,` quoted, a single space whitespace, everything else simple)'.format(sorted(wrong_), sorted(set(wrong_.values()))))
+    else:
+        t = node_text(gd, 1000).replace(' ', '')
+        okg = "ifdelimin[';',',']:return'quoted'" in t and "elifdelim=='':return'whitespace'" in t.replace("' '", "''") and "else:return'simple'" in t
+        if okg:
+            rep.holds('default policy', gd, '; , -> quoted, space -> whitespace, else simple')
+        else:
+            rep.undecided('default policy', gd, 'get_default_policy is outside the abstract interpreter ({}) and its layout is not the known one'.format(gave_up))
 
 
 def _block_of(stmt):
